@@ -83,6 +83,9 @@ func mutTree(args []string) (dir, dbName, tableName string, attnum int) {
 }
 
 func init() {
+	// many small files per case: generous time bound under a loaded machine (the allocation bound stays the default)
+	core.SetEnvelope("droppedmut", 512, 64<<20, 30000)
+	core.SetEnvelope("dropped_mutcorr", 512, 64<<20, 30000)
 	// droppedmut (C10): args = database name, table name, attnum, pg_database, pg_class, pg_attribute, heap ("~" = no heap
 	// files).  The four exported entry points on the corrupted tree; must not panic.
 	core.Register("droppedmut", func(args []string) string {
